@@ -16,7 +16,8 @@ def main():
     pref = sys.argv[1:]
     root = os.path.join(VERIF, "seeded")
     results = {}
-    rp = os.path.join(root, "RESULTS.json")
+    seed = os.environ.get("VERIF_SEED", "0")
+    rp = os.path.join(root, "RESULTS.json" if seed == "0" else "RESULTS_seed%s.json" % seed)     # other seeds: separate file, meta.json untouched
     if os.path.exists(rp):
         results = json.load(open(rp))
     for name in sorted(os.listdir(root)):
@@ -41,7 +42,8 @@ def main():
         results[name] = dict(property=pid, **res)
         meta["sweep"] = dict(check=pid, tier="quick", seed=os.environ.get("VERIF_SEED", "0"), caught=res["caught"],
                              violations=res["violations"], first=res["first"][:1])
-        json.dump(meta, open(os.path.join(d, "meta.json"), "w"), indent=1)
+        if seed == "0":
+            json.dump(meta, open(os.path.join(d, "meta.json"), "w"), indent=1)
         json.dump(results, open(rp, "w"), indent=1)
         fcntl.flock(lock, fcntl.LOCK_UN)
         lock.close()
